@@ -12,7 +12,8 @@ import os
 import vlib
 
 PROPS = "Properties_C11"
-RULE = ("every string over {'/','.','a'} up to length 9 (quick) / 12 (thorough), plus random longer strings "
+RULE = ("every string over {'/','.','a'} up to length 9 (quick) / 12 (thorough), every sequence of up to 6 (quick) / 8 "
+        "(thorough) elements from {'..','.','a','...'} with 0-2 leading and 0-1 trailing separators, plus random longer strings "
         "built from an element pool ('.', '..', '...', 'a..', '..a', names, high bytes) with random separator "
         "runs; non-trivial = contains a dot element, a dot-dot element, a repeated separator or a trailing separator")
 ASSUMPTIONS = [
@@ -21,9 +22,8 @@ ASSUMPTIONS = [
     "observed by ASan on every generated case (exact-size calloc block, exact-size input block)",
     "libstdc++ 12 std::filesystem::path::lexically_normal is the executable meaning of 'the C++17 model'; the Coq "
     "spec std_normal is compared with it on every run (text equality, exhaustive small strings)",
-    "zix_normal_partial covers every C string of `plain` (the complement of the four finding classes) with "
-    "len + 2 < 2^64; on the four classes the model is tied to the code, and the code to the spec, by the "
-    "exhaustive/random correspondence only (testing); the tie model<->code is testing everywhere",
+    "zix_normal_correct covers every C string (no NUL byte) with len + 2 < 2^64; the tie model<->code is "
+    "differential testing (exhaustive small strings + random), not proof",
 ]
 ALPHA = [0x2f, 0x2e, 0x61]
 
@@ -83,6 +83,19 @@ def random_paths(r, n, maxel=9):
     return out
 
 
+def element_exhaustive(maxel, elems=(b"..", b".", b"a", b"...")):
+    """every sequence of up to maxel elements, with 0/1/2 leading separators and with/without a trailing one:
+    reaches deep '..'-cancellation patterns (e.g. '../a/../..') that byte-level enumeration gets to only at length 10+"""
+    out = []
+    for n in range(0, maxel + 1):
+        for seq in itertools.product(elems, repeat=n):
+            body = b"/".join(seq)
+            for pre in (b"", b"/", b"//"):
+                for suf in (b"", b"/"):
+                    out.append(hexs(pre + body + suf))
+    return out
+
+
 def validate_spec(ctx):
     """Coq std_normal (extracted) == libstdc++ lexically_normal, as text."""
     maxlen = 11 if ctx.tier == "thorough" else 8
@@ -116,6 +129,8 @@ def gen(ctx, seed, tier):
     r = ctx.rng("gen", seed)
     if seed == ctx.seed:
         cases = exhaustive(12 if tier == "thorough" else 9)
+        cases += element_exhaustive(8 if tier == "thorough" else 6)
+        cases += element_exhaustive(6 if tier == "thorough" else 4, (b"..", b".", b"a", b"a..", b"..a", b"....", b"b."))
     else:   # extra seeds of the search: random only (the exhaustive part is seed-independent)
         cases = []
     cases += random_paths(r, 4000 if tier == "quick" else 40000)
@@ -186,7 +201,8 @@ def elements(s):
 
 
 def in_class(s):
-    """the four decidable classes of known findings (same predicates as PathNormSpec.class_A..D)"""
+    """the four input classes of the FORMER findings C11-A..D (repaired by fix: commits in /repo); used for
+    the input distribution statistics and, should a finding ever be recorded again, by classify"""
     es = elements(s)
     out = []
     if s.startswith(b"//"):
@@ -201,6 +217,7 @@ def in_class(s):
 
 
 def classify(case, impl, model, spec):
+    # only meaningful while props/C11.findings.json lists known findings (none at present)
     cl = in_class(unhex(case))
     return cl[0] if cl else None
 
@@ -221,7 +238,7 @@ def untokens(toks):
 
 def stats(cases, impl):
     d = {"len_le_4": 0, "len_5_8": 0, "len_9_11": 0, "len_ge_12": 0,
-         "class_A": 0, "class_B": 0, "class_C": 0, "class_D": 0, "plain_proved_class": 0, "subclass_no_dotdot_tail": 0,
+         "former_class_A": 0, "former_class_B": 0, "former_class_C": 0, "former_class_D": 0, "outside_former_classes": 0, "no_field_ending_in_dotdot": 0,
          "with_dotdot_element": 0, "absolute": 0}
     for c in cases:
         s = unhex(c)
@@ -229,12 +246,12 @@ def stats(cases, impl):
         d["len_le_4" if n <= 4 else "len_5_8" if n <= 8 else "len_9_11" if n <= 11 else "len_ge_12"] += 1
         cl = in_class(s)
         for k in cl:
-            d["class_" + k[-1]] += 1
+            d["former_class_" + k[-1]] += 1
         es = elements(s)
         if not cl:
-            d["plain_proved_class"] += 1
+            d["outside_former_classes"] += 1
         if not s.startswith(b"//") and not any(e.endswith(b"..") for e in es):
-            d["subclass_no_dotdot_tail"] += 1
+            d["no_field_ending_in_dotdot"] += 1
         if b".." in es:
             d["with_dotdot_element"] += 1
         if s.startswith(b"/"):
